@@ -252,3 +252,31 @@ def close_fstring(rest: str, q: int, col: int, add: str) -> bool:
     if token.start_pos != walk((1, col), rest[:consumed - len(quote)]):
         return _no('FSTRING_END at %r' % (token.start_pos,))
     return True
+
+
+def split_lines_c(c1: int, c2: int, c3: int) -> bool:
+    """
+    require: 0 <= c1 < 0x110000 and 0 <= c2 < 0x110000 and 0 <= c3 < 0x110000
+    require: not (0xD800 <= c1 <= 0xDFFF) and not (0xD800 <= c2 <= 0xDFFF) and not (0xD800 <= c3 <= 0xDFFF)
+    """
+    return split_lines_laws(chr(c1) + chr(c2) + chr(c3))
+
+
+def split_lines_fresh(c1: int, c2: int, keep: bool) -> bool:
+    """
+    require: 0 <= c1 < 0x110000 and 0 <= c2 < 0x110000 and not (0xD800 <= c1 <= 0xDFFF) and not (0xD800 <= c2 <= 0xDFFF)
+    """
+    s = chr(c1) + chr(c2)
+    a = split_lines(s, keepends=keep)
+    want = list(a)
+    a.append('junk')
+    a[0] = 'edited'
+    b = split_lines(chr(c1) + chr(c2), keepends=keep)
+    if b != want:
+        return _no('split_lines(%r, keepends=%r) returned %r after a caller edited an earlier result (expected %r)' % (s, keep, b, want))
+    return True
+
+
+if TWIN == 'split-loses-fs':
+    import parso.utils as _u
+    _u._NON_LINE_BREAKS = tuple(x for x in _u._NON_LINE_BREAKS if x != '\x1c')
